@@ -25,6 +25,8 @@ Pair == /\ l <= Len(Trace) /\ Ev.ev = "Pair" /\ PairOK
 KF == IF Ev.kind = "build" /\ Ev.hoistsProps /\ Ev.a.builds /\ ~Ev.b.builds THEN "c18-ref-nonstruct"
       ELSE IF Ev.kind = "build" /\ Ev.hoistsHeaders /\ Ev.a.ok /\ ~Ev.b.ok /\ Ev.headerArrayError THEN "c18-header-component-array"
       ELSE IF Ev.kind \in {"wire", "raw"} /\ Ev.bodyVia = "componentInlineObject" THEN "c18-component-body-inline-object"
+      ELSE IF Ev.kind = "wire" /\ {Ev.a.done.body, Ev.b.done.body} = {"[]", "null"} THEN "c18-nil-array-body-null"
+      ELSE IF Ev.kind = "wire" /\ {Ev.a.wire.body, Ev.b.wire.body} = {"[]", "null"} THEN "c18-nil-array-body-null"
       ELSE ""
 Skip == /\ l <= Len(Trace) /\ ~ENABLED Pair
         /\ PrintT(ToJson([verdict |-> "REJECT", case |-> Ev.case, at |-> l, event |-> [ev |-> Ev.ev, kind |-> Ev.kind, variant |-> Ev.variant], kf |-> KF]))
